@@ -1,11 +1,14 @@
-(* Driver of the rank-0 lifecycle machine (C04, C05, C07 at dimensionality 0): history generator + model runner.
+(* Driver of the rank-0 lifecycle machine (C04, C05, C07, C10 at dimensionality 0): history generator + model runner.
    Hand-written and trusted (DESIGN.md section 6.5).  The history text is the interface shared with harness/h_rank0.cpp;
    observation lines have the same format on both sides.
-     driver_rank0 gen --seed S --count N --t <0|1|2|3> --maxops M --prefix P [--disable op,op,...] [--profile c04|c05|c07|mix]
+     driver_rank0 gen --seed S --count N --t <0|1|2|3|4> --maxops M --prefix P [--disable op,op,...] [--profile c04|c05|c07|c10|mix]
+                      [--alloc "pocca=1 pocma=0 pocs=1 ae=0 pmr=0 socc=1"]
      driver_rank0 run            (history text on stdin, observations on stdout)
    All randomness derives from --seed.
 
-   History text:   case <id> / cfg t=<kind> / op <name> <args> ... / end
+   History text:   case <id> / cfg t=<kind> [pocca=<0|1> pocma=<0|1> pocs=<0|1> ae=<0|1> pmr=<0|1> socc=<0|1>] / op <name> <args> ... / end
+   (the allocator configuration: the three propagate_on_container traits and is_always_equal of the harness allocator, or
+   std::pmr::polymorphic_allocator; socc=1: select_on_container_copy_construction returns the instance id + 1000)
    A slot is rN (N < 6); a reference is sN.K (element K of the object in slot N: K = 0 for a rank-0 array, any index of a buffer);
    an operand of a comparison is a reference or vN (the element value N).  The trailing integer of most operations ("form")
    selects the C++ spelling in the harness (which constructor / which kind of reference object); the model does not read it. *)
@@ -35,16 +38,27 @@ let chance pct = rnd 100 < pct
 
 (* element kinds: 0 int, 1 tracked class, 2 struct{int v = 0;}, 3 trivial default constructor with user-provided copy,
    4 like 2 with a move assignment that loses the value when an object is moved onto itself (std::vector-like) *)
-type hcfg = { t : int }
+type hcfg = { t : int; pocca : bool; pocma : bool; pocs : bool; ae : bool; pmr : bool; soccm : int }
 let tracked c = c.t = 1
 let mcfg (c : hcfg) : config =
   { c_rank = O; c_tdc = (c.t = 0 || c.t = 3); c_tdx = not (tracked c); c_quiet = not (tracked c);
-    c_pocca = false; c_pocma = false; c_pocs = false; c_ae = false; c_socc = SoccSame }
+    c_pocca = c.pocca && not c.pmr; c_pocma = c.pocma && not c.pmr; c_pocs = c.pocs && not c.pmr; c_ae = c.ae && not c.pmr;
+    c_socc = (if c.pmr then SoccDefault else if c.soccm = 1 then SoccChild else SoccSame) }
 let parse_cfg (line : string) : hcfg =
-  let t = ref 1 in
+  let t = ref 1 and pocca = ref false and pocma = ref false and pocs = ref false and ae = ref false and pmr = ref false
+  and soccm = ref 0 in
+  let b v = int_of_string v <> 0 in
   List.iter (fun tok -> match String.split_on_char '=' tok with
-      | ["t"; v] -> t := int_of_string v | _ -> ()) (String.split_on_char ' ' line);
-  { t = !t }
+      | ["t"; v] -> t := int_of_string v
+      | ["pocca"; v] -> pocca := b v | ["pocma"; v] -> pocma := b v | ["pocs"; v] -> pocs := b v | ["ae"; v] -> ae := b v
+      | ["pmr"; v] -> pmr := b v | ["socc"; v] -> soccm := int_of_string v
+      | _ -> ()) (String.split_on_char ' ' line);
+  { t = !t; pocca = !pocca; pocma = !pocma; pocs = !pocs; ae = !ae; pmr = !pmr; soccm = !soccm }
+let default_alloc_cfg (c : hcfg) = not (c.pocca || c.pocma || c.pocs || c.ae || c.pmr || c.soccm <> 0)
+let cfg_line (c : hcfg) : string =
+  if default_alloc_cfg c then Printf.sprintf "cfg t=%d" c.t
+  else Printf.sprintf "cfg t=%d pocca=%d pocma=%d pocs=%d ae=%d pmr=%d socc=%d" c.t (Bool.to_int c.pocca) (Bool.to_int c.pocma)
+      (Bool.to_int c.pocs) (Bool.to_int c.ae) (Bool.to_int c.pmr) c.soccm
 
 exception Skip of string
 let np = int_of_nat nP
@@ -106,7 +120,11 @@ let parse_op (st : state) (toks : string list) : action =
   | "assign_conv" :: r :: v :: _ -> Step (ZAssignConv (a0 r, zi v))
   | "assign_ref" :: r :: q :: _ -> let r = a0 r in Step (ZAssignRef (r, rf q))
   | "assign_moved_ref" :: r :: q :: _ -> let r = a0 r in Step (ZAssignMovedRef (r, rf q))
-  | "swap" :: r :: s :: _ -> if slot_of r = slot_of s then raise (Skip "self-swap"); let r = a0 r in Step (ZSwap (r, a0 s))
+  | "swap" :: r :: s :: form ->
+    (* form 1: std::swap(a, b), the generic algorithm; form 0: using std::swap; swap(a, b), which finds the friend = a.swap(b) *)
+    if slot_of r = slot_of s then raise (Skip "self-swap");
+    let r = a0 r in
+    if form = ["1"] then Step (ZSwap (r, a0 s)) else Step (ZSwapMember (r, a0 s))
   | "swap_member" :: r :: s :: _ -> if slot_of r = slot_of s then raise (Skip "self-swap"); let r = a0 r in Step (ZSwapMember (r, a0 s))
   | "write" :: r :: v :: _ -> Step (ZWrite (a0 r, zi v))
   | "move_out" :: r :: _ -> Step (ZMoveOut (a0 r))
@@ -134,7 +152,8 @@ let err_name (e : err) = match e with
 
 type pctx = { classes : (int, int) Hashtbl.t; mutable nclass : int }
 
-let print_state (buf : Buffer.t) (c : hcfg) (cid : string) (step : int) (px : pctx) (st : state) (show_copies : bool) : bool =
+let print_state (buf : Buffer.t) (c : hcfg) (cid : string) (step : int) (px : pctx) (st : state) (show_copies : bool)
+    (show_allocs : bool) : bool =
   let m = mcfg c in
   let all_valid = ref true in
   List.iteri (fun r slot ->
@@ -171,9 +190,10 @@ let print_state (buf : Buffer.t) (c : hcfg) (cid : string) (step : int) (px : pc
       if b.b_live && i b.b_owner <> i std_alloc then Some (i b.b_owner, i b.b_size) else None) st.s_blocks in
   let out = List.sort compare out in
   let out_s = if out = [] then "-" else String.concat "," (List.map (fun (a, n) -> Printf.sprintf "%d:%d" a n) out) in
-  Buffer.add_string buf (Printf.sprintf "G %s %d alive=%d out=%s copies=%s allocs=%d\n" cid step
+  Buffer.add_string buf (Printf.sprintf "G %s %d alive=%d out=%s copies=%s allocs=%s\n" cid step
     (if tracked c then i (alive_cells st) else 0) out_s
-    (if show_copies && tracked c then string_of_int (i st.s_copies) else "-") (i st.s_allocs));
+    (if show_copies && tracked c then string_of_int (i st.s_copies) else "-")
+    (if show_allocs then string_of_int (i st.s_allocs) else "-"));
   !all_valid
 
 (* the operations for which the properties state "no element is copied" *)
@@ -223,7 +243,8 @@ let run_case (buf : Buffer.t) (cid : string) (c : hcfg) (ops : string list list)
              Buffer.add_string buf (Printf.sprintf "V %s %d reference-interpreter-mismatch %s\n" cid !step name);
            Buffer.add_string buf (Printf.sprintf "O %s %d %s ok\n" cid !step name);
            (match moved_out with Some v -> Buffer.add_string buf (Printf.sprintf "Q %s %d moved_out v=%d\n" cid !step v) | None -> ());
-           if not (print_state buf c cid !step px st' (is_moving o)) then dead := true)
+           let show_allocs = not (name = "swap" && (match List.rev toks with "1" :: _ when List.length toks = 4 -> false | _ -> true)) in
+           if not (print_state buf c cid !step px st' (is_moving o) show_allocs) then dead := true)
     end) ops;
   if not !dead then begin
     let err = ref None in
@@ -284,13 +305,14 @@ let gen_history (c : hcfg) (profile : string) (maxops : int) (disabled : string 
     List.concat_map (fun r -> match get_arr_opt !st r with
         | Some a -> List.init (i (nel a)) (fun k -> Printf.sprintf "s%d.%d" r k)
         | None -> []) slots in
-  let alloc_id () = weighted [ (5, 0); (3, 1); (2, 2) ] in
+  let alloc_id () = if profile = "c10" then weighted [ (3, 0); (4, 1); (4, 2); (2, 3) ] else weighted [ (5, 0); (3, 1); (2, 2) ] in
   let form n = string_of_int (rnd n) in
   let w_ctor, w_copy, w_assign, w_ref, w_cmp, w_misc =
     match profile with
     | "c04" -> (8, 10, 12, 4, 3, 6)
     | "c05" -> (5, 3, 4, 20, 3, 4)
     | "c07" -> (6, 3, 4, 4, 24, 3)
+    | "c10" -> (9, 12, 14, 2, 1, 9)
     | _ -> (7, 7, 9, 10, 8, 5) in
   let choose (l : (int * string * (unit -> string list)) list) : string list option =
     let l = List.filter (fun (w, name, _) -> w > 0 && ok name) l in
@@ -386,12 +408,13 @@ let gen_history (c : hcfg) (profile : string) (maxops : int) (disabled : string 
   done;
   List.rev !hist
 
-let gen (sd : int) (count : int) (t : int) (maxops : int) (prefix : string) (profile : string) (disabled : string list) =
+let gen (sd : int) (count : int) (t : int) (maxops : int) (prefix : string) (profile : string) (disabled : string list)
+    (alloc : string) =
   seed sd;
-  let c = { t } in
+  let c = { (parse_cfg alloc) with t } in
   for k = 1 to count do
     let h = gen_history c profile maxops disabled in
-    Printf.printf "case %s%d\ncfg t=%d\n" prefix k t;
+    Printf.printf "case %s%d\n%s\n" prefix k (cfg_line c);
     List.iter (fun toks -> Printf.printf "op %s\n" (String.concat " " toks)) h;
     print_string "end\n"
   done
@@ -408,4 +431,5 @@ let () =
     gen (int_of_string (opt "--seed" "1" rest)) (int_of_string (opt "--count" "10" rest)) (int_of_string (opt "--t" "1" rest))
       (int_of_string (opt "--maxops" "14" rest)) (opt "--prefix" "g" rest) (opt "--profile" "mix" rest)
       (List.filter (fun s -> s <> "") (String.split_on_char ',' (opt "--disable" "" rest)))
+      (opt "--alloc" "" rest)
   | _ -> prerr_endline "usage: driver_rank0 gen|run ..."; exit 2
